@@ -135,7 +135,7 @@ func ruleListItemChildCoverage(c *eng.Ctx) {
 		if f.Pkg != direct.Pkg {
 			continue
 		}
-		for _, ci := range eng.Calls(f, false, func(_ string, ci ssa.CallInstruction) bool { return ci.Common().StaticCallee() == direct }) {
+		for _, ci := range eng.Calls(f, false, func(_ string, ci ssa.CallInstruction) bool { return eng.StaticCallee(ci) == direct }) {
 			arg := ci.Common().Args[0]
 			if ld, ok := arg.(*ssa.UnOp); ok && ld.Op == token.MUL {
 				// a parameter spilled to a cell because a closure captures it
@@ -164,7 +164,7 @@ func ruleListItemChildCoverage(c *eng.Ctx) {
 			if !ok {
 				return false
 			}
-			cal := ci.Common().StaticCallee()
+			cal := eng.StaticCallee(ci)
 			if cal == nil || !walkers[cal] {
 				return false
 			}
@@ -241,7 +241,7 @@ func ruleTableSections(c *eng.Ctx) {
 			return true
 		}
 		for _, ci := range eng.Calls(f, false, func(string, ssa.CallInstruction) bool { return true }) {
-			if cal := ci.Common().StaticCallee(); cal != f && builds(cal, d+1) {
+			if cal := eng.StaticCallee(ci); cal != f && builds(cal, d+1) {
 				return true
 			}
 		}
@@ -305,7 +305,7 @@ func ruleTableSections(c *eng.Ctx) {
 		}
 		var cellCalls []ssa.CallInstruction
 		for _, ci := range eng.Calls(f, false, func(string, ssa.CallInstruction) bool { return true }) {
-			if cal := ci.Common().StaticCallee(); cal != nil && cal != f && cellLevel(cal) && passesChild(ci) {
+			if cal := eng.StaticCallee(ci); cal != nil && cal != f && cellLevel(cal) && passesChild(ci) {
 				cellCalls = append(cellCalls, ci)
 			}
 		}
@@ -345,7 +345,7 @@ func ruleTableSections(c *eng.Ctx) {
 				if !ok {
 					return false
 				}
-				cal := ci.Common().StaticCallee()
+				cal := eng.StaticCallee(ci)
 				if cal == nil || cal == f || !builds(cal, 0) || cellLevel(cal) {
 					return false
 				}
@@ -539,7 +539,7 @@ func ruleFlushResets(c *eng.Ctx) {
 							}
 						}
 					case ssa.CallInstruction:
-						cal := x.Common().StaticCallee()
+						cal := eng.StaticCallee(x)
 						if cal != nil && accumulatingMethods[cal.Name()] && len(x.Common().Args) > 0 && cellRoot(x.Common().Args[0]) == cell {
 							acc, accPath = true, cellPath(x.Common().Args[0])
 						}
@@ -573,7 +573,7 @@ func ruleFlushResets(c *eng.Ctx) {
 							}
 						}
 					case ssa.CallInstruction:
-						cal := x.Common().StaticCallee()
+						cal := eng.StaticCallee(x)
 						if cal == nil || len(x.Common().Args) == 0 || !covers(x.Common().Args[0]) {
 							return
 						}
@@ -617,7 +617,7 @@ func ruleFlushResets(c *eng.Ctx) {
 									}
 								}
 							case ssa.CallInstruction:
-								cal := x.Common().StaticCallee()
+								cal := eng.StaticCallee(x)
 								if cal != nil && resettingMethods[cal.Name()] && len(x.Common().Args) > 0 && cellRoot(x.Common().Args[0]) == cell {
 									cleared = true
 								}
@@ -935,7 +935,7 @@ func ruleEpubModePassthrough(c *eng.Ctx) {
 		for _, g := range epub {
 			eng.Instrs(g, false, func(in ssa.Instruction) {
 				ci, ok := in.(ssa.CallInstruction)
-				if !ok || ci.Common().StaticCallee() != p.Parent() {
+				if !ok || eng.StaticCallee(ci) != p.Parent() {
 					return
 				}
 				idx := -1
@@ -1351,7 +1351,7 @@ func ruleMemoOnSuccess(c *eng.Ctx) {
 				sf, ok := recvField(x.Addr, g)
 				return ok && sf == f
 			case ssa.CallInstruction:
-				cal := x.Common().StaticCallee()
+				cal := eng.StaticCallee(x)
 				if cal == nil || cal.Blocks == nil || cal.Signature.Recv() == nil || len(x.Common().Args) == 0 || x.Common().Args[0] != ssa.Value(g.Params[0]) {
 					return false
 				}
@@ -1419,7 +1419,7 @@ func ruleMemoOnSuccess(c *eng.Ctx) {
 		// loaders: g itself and the methods on the same receiver it calls
 		loaders := []*ssa.Function{g}
 		for _, ci := range eng.Calls(g, false, func(string, ssa.CallInstruction) bool { return true }) {
-			if cal := ci.Common().StaticCallee(); cal != nil && cal != g && cal.Blocks != nil && cal.Signature.Recv() != nil && len(ci.Common().Args) > 0 && ci.Common().Args[0] == ssa.Value(g.Params[0]) {
+			if cal := eng.StaticCallee(ci); cal != nil && cal != g && cal.Blocks != nil && cal.Signature.Recv() != nil && len(ci.Common().Args) > 0 && ci.Common().Args[0] == ssa.Value(g.Params[0]) {
 				loaders = append(loaders, cal)
 			}
 		}
@@ -1485,7 +1485,7 @@ func ruleMemoOnSuccess(c *eng.Ctx) {
 							var cal *ssa.Function
 							if mc, ok := call.Common().Value.(*ssa.MakeClosure); ok {
 								cal, _ = mc.Fn.(*ssa.Function)
-							} else if sc := call.Common().StaticCallee(); sc != nil && sc.Pkg == l.Pkg {
+							} else if sc := eng.StaticCallee(call); sc != nil && sc.Pkg == l.Pkg {
 								cal = sc
 							}
 							if cal == nil || cal.Blocks == nil {
@@ -1986,7 +1986,7 @@ func ruleNoDoubleDecode(c *eng.Ctx) {
 						continue
 					}
 					for _, site := range eng.Calls(g, false, func(string, ssa.CallInstruction) bool { return true }) {
-						if site.Common().StaticCallee() != fn {
+						if eng.StaticCallee(site) != fn {
 							continue
 						}
 						for _, a := range site.Common().Args {
@@ -2381,7 +2381,7 @@ func worklistOrder(c *eng.Ctx, R string) {
 // R10.11 [C10]
 func ruleNoSharedOwnership(c *eng.Ctx) {
 	const R = "R10.11-NO-SHARED-OWNERSHIP"
-	c.Rule(R, "the copy made by Extractor.clone never inherits the duty to close the reader (ownsReader is not taken from the source), and it takes over the source's reader handles only where the source does not own them (under the test !e.ownsReader): two extractors that both own one reader close it under each other, so a terminal operation on a derived extractor breaks the one it came from", 8, 0)
+	c.Rule(R, "the copy made by Extractor.clone never inherits the duty to close the reader (ownsReader is not taken from the source), and it takes over the source's reader handles only where the source does not own them or cannot open the document again (under the test !e.ownsReader || e.filename == \"\"): two extractors that both own one reader close it under each other, so a terminal operation on a derived extractor breaks the one it came from", 8, 0)
 	fn := c.P.Func("tabula.(*Extractor).clone")
 	if fn == nil || len(fn.Params) == 0 {
 		c.Undec(R, "tabula.(*Extractor).clone", token.NoPos, "anchor not found")
@@ -2390,11 +2390,22 @@ func ruleNoSharedOwnership(c *eng.Ctx) {
 	src := ssa.Value(fn.Params[0])
 	handles := map[string]bool{"reader": true, "docxReader": true, "odtReader": true, "xlsxReader": true, "pptxReader": true, "htmlReader": true, "epubReader": true}
 	notOwner := func(f eng.Fact) bool {
-		if f.Pos {
-			return false
+		if !f.Pos {
+			fr, ok := eng.LoadOfField(f.Cond)
+			return ok && fr.Field == "ownsReader"
 		}
-		fr, ok := eng.LoadOfField(f.Cond)
-		return ok && fr.Field == "ownsReader"
+		// or the source has no file to open again (a document given from memory): the copy can only
+		// borrow the handle; it still never inherits the duty to close it
+		if op, x, y, ok := f.Cmp(); ok && op == token.EQL {
+			for _, side := range [][2]ssa.Value{{x, y}, {y, x}} {
+				if fr, ok := eng.LoadOfField(side[0]); ok && fr.Field == "filename" {
+					if s, isS := eng.ConstString(side[1]); isS && s == "" {
+						return true
+					}
+				}
+			}
+		}
+		return false
 	}
 	seen := map[string]bool{}
 	for _, h := range eng.Cluster(fn, 1) {
@@ -2428,6 +2439,26 @@ func ruleNoSharedOwnership(c *eng.Ctx) {
 			}
 		})
 	}
+	// a source that owns a document it cannot open again (given from memory: ownsReader, no file name) must hand
+	// the document on, or every builder method yields an extractor with nothing to read: the copy of the handle is
+	// reachable when ownsReader is true and filename is empty (evaluated over the two values)
+	reach := eng.StrReach(fn, []string{""}, func(v ssa.Value) bool {
+		fr, ok := eng.LoadOfField(v)
+		return ok && fr.Field == "filename"
+	}, func(v ssa.Value, _ *eng.StrIntern) (int64, bool) {
+		if fr, ok := eng.LoadOfField(v); ok && fr.Field == "ownsReader" {
+			return 1, true
+		}
+		return 0, false
+	}, func(in ssa.Instruction) bool {
+		st, ok := in.(*ssa.Store)
+		if !ok {
+			return false
+		}
+		fr, ok := eng.AsField(st.Addr)
+		return ok && fr.Field == "htmlReader" && strings.HasSuffix(fr.Struct, "tabula.Extractor")
+	})
+	c.Check(reach[""], R, eng.FuncName(fn)+"#in-memory-source", fn.Pos(), "a document given from memory is handed on to the copy", "an extractor that owns a document it cannot open again (FromHTMLString: no file name) does not hand it to its copies: every builder method on it returns an extractor that fails with nothing to read")
 	for name := range handles {
 		if !seen[name] {
 			c.Ok(R, eng.FuncName(fn)+"#"+name, fn.Pos(), "handle not taken over")
